@@ -34,7 +34,7 @@ class Monitor(object):
         self.ctx = ctx
         import athlib
         self.a = athlib
-        for n in ('wma_age_factor', 'wma_world_best', 'wma_age_grade', 'wma_athlon_age_factor'):
+        for n in ('wma_age_factor', 'wma_world_best', 'wma_age_grade', 'wma_athlon_age_factor', 'wma_athlon_age_grade'):
             attach.monitor(athlib, n, getattr(self, 'on_' + n), rebind_aliases=False)
         self.check = athlib.check_event_code
         self.kind = sys.modules['athlib.wma.agegrader'].AgeGrader.event_code_to_kind
@@ -267,6 +267,57 @@ class Monitor(object):
         self.spelling('athlon-factor', 'athlons', g, event, age, None, out.value, case)
 
 
+    def on_wma_athlon_age_grade(self, args, kwargs, out):
+        """The combined-events table holds factors only.  A grade is judged through the open best it implies
+        (grade x time x factor, or mark x factor / grade): that must be an open best - within 20% of the one either single-event
+        table gives for the same code - whatever column the grader took it from."""
+        ctx = self.ctx
+        ctx.count('eval.athlon-grade')
+        if len(args) < 4:
+            return
+        gender, age, event, perf = args[:4]
+        g = self.canon_gender(gender)
+        if g is None or not isinstance(event, str) or isinstance(age, bool) or not isinstance(age, (int, float)) or \
+                isinstance(perf, bool) or not isinstance(perf, (int, float)) or not perf > 0:
+            return
+        ev = event.upper()
+        fe = ev
+        if ev.endswith('H') and ev not in ('LH', 'SH', '60H') and ev[:-1].isdigit():
+            d = int(ev[:-1])
+            fe = 'SH' if d <= 110 else 'LH' if d >= 200 else None
+        row = self.rows.get(('athlons', g, fe))
+        ages = self.tables['athlons']['ages']
+        bests = [self.rows[(y, g, ev)][2] for y in (2023, 2015) if (y, g, ev) in self.rows]
+        if row is None or age < 0 or age > ages[-1] + 20 or not bests:
+            ctx.count('unjudged.athlon-grade-off-domain-or-no-open-best-known')
+            return
+        case = {'fn': 'wma_athlon_age_grade', 'gender': gender, 'age': age, 'event': event, 'perf': perf}
+        band = 5 * int(age // 5)
+        f = 1.0 if band < ages[1] else row[min((band - ages[0]) // 5, len(row) - 1)]
+        if not out.ok:
+            ctx.violation('athlon-grade:raise:%s:%s' % (type(out.value).__name__, 'hurdles-code-with-a-distance' if fe != ev else 'plain'),
+                          case, 'a grade', repr(out))
+            return
+        gr = out.value
+        if isinstance(gr, bool) or not isinstance(gr, (int, float)) or not gr > 0 or gr != gr or gr == float('inf'):
+            ctx.violation('athlon-grade:not-a-finite-positive-number', case, 'finite positive', repr(gr))
+            return
+        try:
+            field = attach.call(self.kind, ev).value in ('throw', 'jump')
+        except Exception:
+            field = False
+        implied = perf * f / gr if field else gr * perf * f
+        if any(abs(implied - b) <= 0.2 * b for b in bests):
+            ctx.count('judged.athlon-grade')
+            ctx.nt(('ag', g, ev, band))
+            return
+        if any(isinstance(c, (int, float)) and abs(implied - c) <= 1e-9 * max(1.0, abs(c)) for c in row[1:]):
+            key = 'athlon-grade:open-best-read-from-a-factor-column'
+        else:
+            key = 'athlon-grade:implied-open-best-is-not-an-open-best'
+        ctx.violation(key, dict(case, implied_open_best=implied), 'about %s' % bests[0], implied)
+
+
 def event_spellings(mon, ev, rnd=None):
     """the tabulated (upper-case) code, its lower-case form, a capitalised form and a seeded mixed-case form - every code
     "differing only in letter case".  They are NOT filtered through the library's own checker: which re-casings of a
@@ -328,6 +379,10 @@ def run_shard(ctx, spec):
                 for gs in GENDERS[g]:
                     for age in ages:
                         attach.call(a.wma_athlon_age_factor, gs, age, e2)
+                        if gs in ('m', 'f', 'M', 'F') and (mon.rows.get((2023, g, e2.upper())) or mon.rows.get((2015, g, e2.upper()))):
+                            b0 = (mon.rows.get((2023, g, e2.upper())) or mon.rows.get((2015, g, e2.upper())))[2]
+                            for mlt in (1.0, 1.3):
+                                attach.call(a.wma_athlon_age_grade, gs, age, e2, b0 * mlt)
             continue
         row = mon.rows[(y, g, ev)]
         ages_l = mon.tables[y]['ages']
@@ -350,6 +405,11 @@ def run_shard(ctx, spec):
                 attach.call(a.wma_world_best, gs, e2, year=y)
                 for age in ages_for(first, last, ctx.tier):
                     attach.call(a.wma_age_factor, gs, age, e2, year=y)
+                    if isinstance(age, int) and gs in ('m', 'f', 'F', 'M'):
+                        # a whole age that is not a Python int (14.0 from a spreadsheet or a subtraction of floats)
+                        attach.call(a.wma_age_factor, gs, float(age), e2, year=y)
+                        attach.call(a.wma_age_grade, gs, float(age), e2, best * 1.1, year=y)
+                        ctx.count('eval.whole-age-as-float')
                     if gs in ('m', 'f', 'M', 'Female', 'Male', 'F') or ctx.tier == 'thorough':
                         for m in (mults if gs in ('m', 'f') else mults[2:5]):
                             p = best * m
